@@ -11,11 +11,12 @@ CONSTANTS
   ClassExprs <- ClassExprsCore
   Repaired = {"KvCompName", "SliceKVRules"}
   Variant = "packageState"
+  MaxNonces = 1
   MaxSteps = 99
   EmitEdges = FALSE
 INIT Init
 NEXT Next
 VIEW View
 INVARIANTS TypeOK RegistryMatchesDocument
-PROPERTIES AtMostOnce DefBeforeFirstUse EveryUseHasCallOrName MiddlewareNeverInlined StylesheetServesRegistered ContextsIndependent
+PROPERTIES AtMostOnce DefBeforeFirstUse EveryUseHasCallOrName MiddlewareNeverInlined StylesheetServesRegistered ContextsIndependent NonceKeepsRegistry
 CHECK_DEADLOCK FALSE
